@@ -42,15 +42,19 @@ IsPow2(x) == x \in Pow2Set
 Single(c, s)         == [k |-> "single",   col |-> c, first |-> s, stride |-> 0, n |-> 1]
 Periodic(c, f, t)    == [k |-> "periodic", col |-> c, first |-> f, stride |-> t, n |-> 1]
 SequenceA(c, f, t, m) == [k |-> "sequence", col |-> c, first |-> f, stride |-> t, n |-> m]
+\* a sequence assertion whose m values are all EQUAL (the constructor call Assertion::sequence with a
+\* constant vector): still a sequence — it fits exactly the length m * stride
+ConstSeq(c, f, t, m)  == [k |-> "cseq", col |-> c, first |-> f, stride |-> t, n |-> m]
+IsSeq(a) == a.k \in {"sequence", "cseq"}
 
 \* documented constructor preconditions
 Constructible(a) ==
   CASE a.k = "single"   -> TRUE
     [] a.k = "periodic" -> IsPow2(a.stride) /\ a.stride >= 2 /\ a.first < a.stride
-    [] a.k = "sequence" -> IsPow2(a.stride) /\ a.stride >= 2 /\ a.first < a.stride
+    [] IsSeq(a)         -> IsPow2(a.stride) /\ a.stride >= 2 /\ a.first < a.stride
                            /\ a.n >= 1 /\ IsPow2(a.n)
 
-Kind(a) == IF a.k = "sequence" /\ a.n = 1 THEN "single" ELSE a.k
+Kind(a) == IF IsSeq(a) THEN (IF a.n = 1 THEN "single" ELSE "sequence") ELSE a.k
 
 Fits(a, L) ==
   /\ IsPow2(L)
@@ -92,8 +96,10 @@ Universe ==
   \cup UNION {{Periodic(c, f, t) : c \in Cols, f \in 0..(t - 1)} : t \in Strides}
   \cup UNION {UNION {{SequenceA(c, f, t, m) : c \in Cols, f \in 0..(t - 1)}
                      : m \in {x \in Pows(1, LMax) : x * t <= LMax}} : t \in Strides}
+  \cup UNION {UNION {{ConstSeq(c, f, t, m) : c \in Cols, f \in {0, t - 1}}
+                     : m \in {x \in Pows(2, LMax) : x * t <= LMax}} : t \in Strides}
 
-KindNo(a) == CASE a.k = "single" -> 0 [] a.k = "periodic" -> 1 [] a.k = "sequence" -> 2
+KindNo(a) == CASE a.k = "single" -> 0 [] a.k = "periodic" -> 1 [] a.k = "sequence" -> 2 [] a.k = "cseq" -> 3
 Key(a) == <<KindNo(a), a.col, a.stride, a.n, a.first>>
 LexLess(x, y) == \E i \in 1..5 : x[i] < y[i] /\ \A j \in 1..(i - 1) : x[j] = y[j]
 U == SetToSortSeq(Universe, LAMBDA a, b : LexLess(Key(a), Key(b)))
